@@ -1,4 +1,5 @@
 import Driver.Framing
+import Driver.C01X
 namespace DriverC01
 open Proto Framing DriverFraming
 
@@ -6,7 +7,7 @@ open Proto Framing DriverFraming
 messages, no chunk is empty, every chunk consists of whole frames and obeys the batching
 contract (`batchingOk`; exact chunk boundaries are not otherwise compared).  dec (valid stream cut
 anywhere): exactly the original messages in order, then a clean end. -/
-def handle (case obs : List String) : String × String :=
+def handleCore (case obs : List String) : String × String :=
   match parseCase case with
   | none => bad
   | some (.enc c) =>
@@ -33,4 +34,15 @@ def handle (case obs : List String) : String × String :=
               ("case-is-valid-stream", left.isEmpty && msgs.length == frs.length),
               ("messages-in-order", obsMsgs obs == msgs),
               ("then-clean-end", !rest.isEmpty && rest.all (fun t => t = "n"))])
+
+/-- The audit's case kinds (harness/src/c01_x.rs): `xenc` / `rdec` wrap a case in a dimension that
+has to be invisible — the wrapped case's prediction and verdict apply unchanged; `xdec` and `rt`
+have their own (Driver/C01X.lean). -/
+def handle (case obs : List String) : String × String :=
+  match case with
+  | "xenc" :: flv :: rest => if DriverC01X.okEFlavour flv then handleCore rest obs else bad
+  | "rdec" :: st :: rest => if DriverC01X.okRStyle st then handleCore rest obs else bad
+  | "xdec" :: flv :: ops :: rest => DriverC01X.handleXdec flv ops rest obs
+  | "rt" :: _ => DriverC01X.handleRt case obs
+  | _ => handleCore case obs
 end DriverC01
